@@ -10,18 +10,19 @@ import (
 // TaskCfg describes one generated task. Every command is `echo <token>` so that it is observed at
 // the runner's stdout seam; FailAt>=0 makes that command `echo <token>; exit 1`.
 type TaskCfg struct {
-	Name   string   `json:"name"`
-	Before []string `json:"before,omitempty"`
-	Cmds   []string `json:"cmds,omitempty"`
-	After  []string `json:"after,omitempty"`
-	Cond   string   `json:"cond,omitempty"` // "", "true", "false"
-	Ctx    string   `json:"ctx,omitempty"`
-	FailAt int      `json:"fail_at"` // -1: none
-	Allow  bool     `json:"allow,omitempty"`
-	Deps   []string `json:"deps,omitempty"` // pipeline mode: stage dependencies (stage name == task name)
-	Export string   `json:"export,omitempty"`
-	Reads  string   `json:"reads,omitempty"`   // name of an environment variable the last command echoes
-	SameAs string   `json:"same_as,omitempty"` // this entry runs the very task object of the named entry once more
+	Name     string            `json:"name"`
+	Before   []string          `json:"before,omitempty"`
+	Cmds     []string          `json:"cmds,omitempty"`
+	After    []string          `json:"after,omitempty"`
+	Cond     string            `json:"cond,omitempty"` // "", "true", "false"
+	Ctx      string            `json:"ctx,omitempty"`
+	FailAt   int               `json:"fail_at"` // -1: none
+	Allow    bool              `json:"allow,omitempty"`
+	Deps     []string          `json:"deps,omitempty"` // pipeline mode: stage dependencies (stage name == task name)
+	Export   string            `json:"export,omitempty"`
+	Reads    string            `json:"reads,omitempty"`     // name of an environment variable the last command echoes
+	StageEnv map[string]string `json:"stage_env,omitempty"` // pipeline mode: env override given on the stage
+	SameAs   string            `json:"same_as,omitempty"`   // this entry runs the very task object of the named entry once more
 }
 
 // CtxCfg describes one execution context.
@@ -37,16 +38,17 @@ type CtxCfg struct {
 
 // Scenario is one configuration of the real-runner harness.
 type Scenario struct {
-	Tasks      []TaskCfg `json:"tasks"`
-	Ctxs       []CtxCfg  `json:"ctxs,omitempty"`
-	Mode       string    `json:"mode"` // "par": one thread per task calling Run; "seq": one thread; "pipeline": through the scheduler
-	Cancellers int       `json:"cancellers,omitempty"`
-	Twice      bool      `json:"twice,omitempty"`     // each canceller calls Cancel twice in a row
-	ViaSched   bool      `json:"via_sched,omitempty"` // cancel through Scheduler.Cancel
-	CondErr    string    `json:"cond_err,omitempty"`  // pipeline mode: this stage's condition cannot be evaluated
-	Finish     bool      `json:"finish,omitempty"`    // call Finish at the end
-	Unused     bool      `json:"unused,omitempty"`    // an extra context nobody uses exists
-	Index      int64     `json:"index"`
+	Tasks       []TaskCfg `json:"tasks"`
+	Ctxs        []CtxCfg  `json:"ctxs,omitempty"`
+	Mode        string    `json:"mode"` // "par": one thread per task calling Run; "seq": one thread; "pipeline": through the scheduler
+	Cancellers  int       `json:"cancellers,omitempty"`
+	Twice       bool      `json:"twice,omitempty"`        // each canceller calls Cancel twice in a row
+	ViaSched    bool      `json:"via_sched,omitempty"`    // cancel through Scheduler.Cancel
+	CondErr     string    `json:"cond_err,omitempty"`     // pipeline mode: this stage's condition cannot be evaluated
+	Finish      bool      `json:"finish,omitempty"`       // call Finish at the end
+	DirectAfter string    `json:"direct_after,omitempty"` // pipeline mode: after the pipeline, this task is run once more directly
+	Unused      bool      `json:"unused,omitempty"`       // an extra context nobody uses exists
+	Index       int64     `json:"index"`
 }
 
 func (s Scenario) String() string {
@@ -70,6 +72,12 @@ func (s Scenario) String() string {
 		}
 		if t.SameAs != "" {
 			p += "[same object as " + t.SameAs + "]"
+		}
+		if len(t.StageEnv) > 0 {
+			p += fmt.Sprintf("[stage env %v]", t.StageEnv)
+		}
+		if t.Reads != "" {
+			p += "[echoes $" + t.Reads + "]"
 		}
 		parts = append(parts, p)
 	}
